@@ -26,11 +26,12 @@ Resources == [ pod |-> <<"/api/v1", "pods">>, service |-> <<"/api/v1", "services
 
 ExpectedPath(pkg, ns, op) ==
   LET r == Resources[pkg] IN
-  r[1] \o (IF op = "watch" THEN "/watch" ELSE "") \o (IF ns = "" THEN "" ELSE "/namespaces/" \o ns) \o "/" \o r[2]
+  r[1] \o (IF op \in {"watch", "watch2"} THEN "/watch" ELSE "") \o (IF ns = "" THEN "" ELSE "/namespaces/" \o ns) \o "/" \o r[2]
 
 ReqClass(r) ==
   IF r.method # "GET" \/ r.path # ExpectedPath(r.pkg, r.ns, r.op) THEN "typed-request-path"
-  ELSE IF r.op = "watch" /\ ~({<<"resourceVersion", "7">>, <<"watch", "true">>} \subseteq Range(r.query)) THEN "typed-request-query"
+  ELSE IF r.op = "watch" /\ (Range(r.query) # {<<"resourceVersion", "7">>, <<"watch", "true">>} \/ Len(r.query) # 2) THEN "typed-request-query"
+  ELSE IF r.op = "watch2" /\ (Range(r.query) # {<<"resourceVersion", "9">>, <<"watch", "true">>} \/ Len(r.query) # 2) THEN "typed-request-query"
   ELSE IF r.op = "list" /\ \E q \in Range(r.query) : q[1] = "watch" THEN "typed-request-query"
   ELSE ""
 
